@@ -46,7 +46,9 @@ def run(ch, build):
     if ch.quick():
         triples = rng.sample(triples, 160) + [(1, 1, 1), (3, 4, 1), (2, 2, 1), (1, 1, 0), (1, 0, 1), (0, 1, 1), (0, 0, 0), (3, 4, 0), (3, 0, 1)]
     for su in ([(1, 1, 1), (3, 4, 1)] if ch.quick() else hist.SUITES):
-        for t in triples:
+        # every triple that differs from the proposal in exactly one algorithm (the silent downgrade / swap)
+        near = [tuple(su[:k]) + (v,) + tuple(su[k + 1:]) for k in range(3) for v in vals if v != su[k]]
+        for t in list(dict.fromkeys(triples + near + [tuple(su)])):
             bmc = conn.default_bmc(seed=4, suites=[[100, su[0], su[1], su[2]]])
             # Open Session Response: datagram = 16 header + payload; algorithms at payload offsets 16, 24, 32
             mu = "setbytes:32=%d;40=%d;48=%d" % t
